@@ -19,6 +19,7 @@ class Forest:
         self.handles: list[Any] = []  # every legacy node ever created / received (strong refs)
         self._seen: set[int] = set()
         self.rb = 0
+        self.cross_tree_ancestor_queries = 0
 
     def add(self, *nodes):
         for n in nodes:
@@ -128,6 +129,32 @@ class Forest:
                 return ("I3-lookup", "lookup does not return an attached node under its id", {"node": desc(n)})
         if not deep:
             return None
+        # I5 across trees, asked before anything is recalculated: paths calculated at an earlier point of the history (and
+        # stale by now) are no evidence of ancestry - the parent links are
+        import random as _random
+
+        gparent: dict[int, Any] = {}
+        allnodes = []
+        for r in [n for n in att if n.parent is None]:
+            gparent[id(r)] = None
+            for x in struct_subtree(U, r):
+                allnodes.append(x)
+                for _fn, _ix, c in struct_children(U, x):
+                    gparent[id(c)] = x
+        prng = _random.Random(len(allnodes) * 31 + len(self.handles))
+        with_path = [x for x in allnodes if getattr(x, "xpath", None)]
+        for b in prng.sample(with_path, min(8, len(with_path))) + prng.sample(allnodes, min(6, len(allnodes))):
+            for a in prng.sample(with_path, min(8, len(with_path))) + prng.sample(allnodes, min(4, len(allnodes))):
+                exp = False
+                q = gparent.get(id(b))
+                while q is not None:
+                    if q is a:
+                        exp = True
+                        break
+                    q = gparent.get(id(q))
+                self.cross_tree_ancestor_queries += 1
+                if a.is_ancestor(b) != exp:
+                    return ("I5-is_ancestor", "is_ancestor disagrees with the structure (asked across trees, before paths are recalculated)", {"ancestor": desc(a), "node": desc(b), "exp": exp, "ancestor_xpath": getattr(a, "xpath", None), "node_xpath": getattr(b, "xpath", None)})
         # I4 + I5 per attached root
         for r in [n for n in att if n.parent is None]:
             nodes = struct_subtree(U, r)
